@@ -296,6 +296,30 @@ func lockPoint(fr *frame, what string) {
 	s.yield(fmt.Sprintf("point:%s#%d", name, th.pointHits[name]))
 }
 
+// txnPoint: after h.SymbolicTxns() the start of every Badger transaction
+// (View, Update, NewTransaction) made by /repo code is a scheduling point named
+// txn:<file>:<line> — the granularity at which snapshot reads of concurrent
+// clients interleave. The replay build has verifhook.Point inserted before the
+// same statements.
+func txnPoint(fr *frame) {
+	p := fr.i.path
+	s := p.sched
+	if s == nil || !s.txnPoints || fr.caller == nil || fr.caller.fn == nil {
+		return
+	}
+	file := fr.i.prog.Fset.Position(fr.caller.fn.Pos()).Filename
+	if !inRepo(file) {
+		return
+	}
+	name := "txn:" + mutexName(fr)
+	th := s.cur
+	if th.pointHits == nil {
+		th.pointHits = map[string]int{}
+	}
+	th.pointHits[name]++
+	s.yield(fmt.Sprintf("point:%s#%d", name, th.pointHits[name]))
+}
+
 func mutexUnlock(fr *frame, mp *value, what string) {
 	p := fr.i.path
 	m := p.env.mutex(mp)
